@@ -840,10 +840,12 @@ def BPF(input: optical_signal, BW: float, n: int = 4):
 
     output = input[:]  # copy the input signal
 
-    output.signal = sg.sosfiltfilt(sos_band, input.signal, axis=-1)
+    padlen = min(3 * (2 * len(sos_band) + 1), input.len() - 1)  # scipy's default edge padding grows with the order, short inputs only have len-1 samples to give
+
+    output.signal = sg.sosfiltfilt(sos_band, input.signal, axis=-1, padlen=padlen)
 
     if output.noise is not None:
-        output.noise = sg.sosfiltfilt(sos_band, input.noise, axis=-1)
+        output.noise = sg.sosfiltfilt(sos_band, input.noise, axis=-1, padlen=padlen)
 
     output.execution_time = toc()
     return output
@@ -1281,10 +1283,12 @@ def LPF(
 
     output = input[:]
 
-    output.signal = sg.sosfiltfilt(sos_band, signal).real
+    padlen = min(3 * (2 * len(sos_band) + 1), signal.size - 1)  # scipy's default edge padding grows with the order, short inputs only have len-1 samples to give
+
+    output.signal = sg.sosfiltfilt(sos_band, signal, padlen=padlen).real
 
     if noise is not None:
-        output.noise = sg.sosfiltfilt(sos_band, noise).real
+        output.noise = sg.sosfiltfilt(sos_band, noise, padlen=padlen).real
 
     if retH:
         _, H = sg.sosfreqz(sos_band, worN=signal.size, fs=fs, whole=True)
